@@ -95,7 +95,9 @@ Inductive kitem := KInt (z : Z) | KSlice (start stop step : option Z).
 Inductive key :=
 | KBasic (items : list kitem)               (* int / slice / tuple of them *)
 | KMask (mshape : list nat) (bits : list bool)  (* boolean array over leading axes *)
-| KFancy (ixs : list Z).                    (* integer list on the first axis *)
+| KFancy (ixs : list Z)                     (* integer list on the first axis *)
+| KEllip (before after : list kitem).       (* items, Ellipsis, items: the Ellipsis stands for full slices of the axes not named
+                                               (since repair 32d9ef9 a key never reaches the component axis) *)
 
 Definition norm_index (n : nat) (z : Z) : option nat :=
   let zn := Z.of_nat n in
@@ -169,11 +171,23 @@ Fixpoint norm_all (n : nat) (zs : list Z) : option (list nat) :=
 
 (* `np.atleast_2d(self.data[key])`: a fully integer-indexed element gets
    shape (1,) *)
+Definition plan_basic (s : list nat) (items : list kitem) : plan :=
+  match basic_sels s items with
+  | Some sels => PGather (atleast1 (kept_shape sels)) (sel_positions s (map fst sels))
+  | None => PErr
+  end.
+Definition expand_ellipsis (s : list nat) (b a : list kitem) : option (list kitem) :=
+  let nb := (length b + length a)%nat in
+  if Nat.leb nb (length s)
+  then Some (b ++ repeat (KSlice None None None) (length s - nb) ++ a)
+  else None.
+
 Definition plan_get (s : list nat) (k : key) : plan :=
   match k with
-  | KBasic items =>
-      match basic_sels s items with
-      | Some sels => PGather (atleast1 (kept_shape sels)) (sel_positions s (map fst sels))
+  | KBasic items => plan_basic s items
+  | KEllip b a =>
+      match expand_ellipsis s b a with
+      | Some items => plan_basic s items
       | None => PErr
       end
   | KMask m bits =>
